@@ -450,29 +450,26 @@ func (ct *cacheTrial) rebuild() *cacheEnv {
 	return env
 }
 
-// culprit finds, for a multi-part notification that panicked, the part at
+// stateBuilder re-creates a cache state for the isolation of a crash.
+type stateBuilder struct {
+	name  string
+	build func() *cacheEnv // nil result: could not be built
+}
+
+// culpritOf finds, for a multi-part notification that panicked, the part at
 // which the same kind of failure recurs when the parts are replayed one by
 // one, in processing order, as single-part notifications (through the same
-// guarded call) against a re-creation of the cache as it was before the
-// message (failing that: a fresh cache in the trial's kind of state, then an
-// empty one). It returns that part and the state it failed in (which includes
-// the effect of the earlier parts); if the failure does not recur that way,
-// the whole message and its state.
-func (ct *cacheTrial) culprit(n *pb.Notification, st *cacheState, pi *panicInfo) (*pb.Notification, *cacheState, string) {
+// guarded call) against each of the given cache states in turn. It returns
+// that part and the state it failed in (which includes the effect of the
+// earlier parts); if the failure does not recur that way, the whole message
+// and its state.
+func culpritOf(n *pb.Notification, st *cacheState, pi *panicInfo, builders []stateBuilder) (*pb.Notification, *cacheState, string) {
 	parts := singleParts(n)
 	if len(parts) == 0 {
 		return n, st, ""
 	}
-	for _, variant := range []string{"the re-created", "a fresh " + ct.env.kind, "an empty"} {
-		var env *cacheEnv
-		switch variant {
-		case "the re-created":
-			env = ct.rebuild()
-		case "an empty":
-			guard(func() { env = buildState("empty", rand.New(rand.NewSource(1)), baseTS) })
-		default:
-			guard(func() { env = buildState(ct.env.kind, rand.New(rand.NewSource(1)), baseTS-2*int64(time.Second)) })
-		}
+	for _, b := range builders {
+		env := b.build()
 		if env == nil {
 			continue
 		}
@@ -485,7 +482,7 @@ func (ct *cacheTrial) culprit(n *pb.Notification, st *cacheState, pi *panicInfo)
 			if p2 := guard(func() { env.c.GnmiUpdate(c) }); p2 != nil {
 				if p2.Kind == pi.Kind {
 					env.close()
-					return sp, sst, fmt.Sprintf("replaying the parts one by one on %s cache, part %d fails the same way: %s", variant, i, ptext(sp))
+					return sp, sst, fmt.Sprintf("replaying the parts one by one on %s cache, part %d fails the same way: %s", b.name, i, ptext(sp))
 				}
 				break
 			}
@@ -495,12 +492,52 @@ func (ct *cacheTrial) culprit(n *pb.Notification, st *cacheState, pi *panicInfo)
 	return n, st, ""
 }
 
+// classifyIngestCrash names the input class of a crash in GnmiUpdate: a named
+// corner of the culprit part if one explains the failure, else the
+// fingerprint of the smallest message that still fails the same way on the
+// first (exact) state. notes are for the witness.
+func classifyIngestCrash(n *pb.Notification, st *cacheState, pi *panicInfo, builders []stateBuilder) (class string, notes []string) {
+	part, pst, note := culpritOf(n, st, pi, builders)
+	if note != "" {
+		notes = append(notes, note)
+	}
+	class, named := cacheClass(pi, part, pst)
+	if named {
+		return class, notes
+	}
+	small := shrink(part, 250, func(m proto.Message) bool {
+		env := builders[0].build()
+		if env == nil {
+			return false
+		}
+		defer env.close()
+		c := proto.Clone(m).(*pb.Notification)
+		p2 := guard(func() { env.c.GnmiUpdate(c) })
+		return p2 != nil && p2.Kind == pi.Kind
+	})
+	return shrunkClass(pi.Kind, small), append(notes, "shrunk to: "+ptext(small))
+}
+
+func freshBuilder(kind string) stateBuilder {
+	return stateBuilder{"a fresh " + kind, func() *cacheEnv {
+		var env *cacheEnv
+		guard(func() { env = buildState(kind, rand.New(rand.NewSource(1)), baseTS-2*int64(time.Second)) })
+		return env
+	}}
+}
+
+func (ct *cacheTrial) builders() []stateBuilder {
+	return []stateBuilder{{"the re-created", ct.rebuild}, freshBuilder(ct.env.kind), freshBuilder("empty")}
+}
+
 // confused reports whether some leaf under meta/ holds a value of another
 // type than the registered metadata entry.
-func (ct *cacheTrial) confused() bool {
+func (ct *cacheTrial) confused() bool { return ct.env.confused() }
+
+func (e *cacheEnv) confused() bool {
 	ints := map[string]bool{"targetLeaves": true, "targetLeavesAdded": true, "targetLeavesDeleted": true, "targetLeavesEmpty": true, "targetLeavesUpdated": true,
 		"targetLeavesStale": true, "targetLeavesFuture": true, "targetLeavesSuppressed": true, "targetSize": true, "latestTimestamp": true}
-	for _, m := range ct.env.leaves {
+	for _, m := range e.leaves {
 		for k, n := range m {
 			p := model.Unkey(k)
 			if len(p) < 2 || p[0] != "meta" || len(n.GetUpdate()) == 0 {
@@ -551,26 +588,9 @@ func (ct *cacheTrial) message(n *pb.Notification, wire []byte) string {
 	ct.hash = append(ct.hash, wire)
 	if pi != nil {
 		ct.r.Count("cache_ingest_panics", 1)
-		part, pst, note := ct.culprit(n, st, pi)
-		if note != "" {
+		class, notes := classifyIngestCrash(n, st, pi, ct.builders())
+		for _, note := range notes {
 			ct.hist = append(ct.hist, histEntry{Op: "isolation", Out: note})
-		}
-		class, named := cacheClass(pi, part, pst)
-		if !named {
-			// No named corner explains it: the class is the fingerprint of the
-			// smallest message that still fails the same way on the re-created cache.
-			small := shrink(part, 250, func(m proto.Message) bool {
-				env := ct.rebuild()
-				if env == nil {
-					return false
-				}
-				defer env.close()
-				c := proto.Clone(m).(*pb.Notification)
-				p2 := guard(func() { env.c.GnmiUpdate(c) })
-				return p2 != nil && p2.Kind == pi.Kind
-			})
-			class = shrunkClass(pi.Kind, small)
-			ct.hist = append(ct.hist, histEntry{Op: "shrunk", Out: ptext(small)})
 		}
 		ct.violation("cache-ingest", class, pi, "GnmiUpdate", n)
 		return "panic"
